@@ -1029,6 +1029,10 @@ Proof.
   - eapply cancel_inv; eauto.
   - eapply resume_cancelled_inv; eauto.
   - eapply resume_read_fail_inv; eauto.
+  - (* AClose = crash *) injection H as <-. unfold close. apply crash_inv; auto.
+  - (* ACloseOk = persist_ok ; crash *)
+    unfold close_ok in H. destruct (persist_ok s) as [s1|] eqn:P; [|discriminate]. injection H as <-.
+    apply crash_inv. eapply persist_inv; eauto.
 Qed.
 
 Lemma run_inv acts : forall s s', Inv s -> run s acts = Some s' -> Inv s'.
